@@ -154,6 +154,11 @@ def check(R):
         R.cut_from('P2', ne, st[0].bb, 'advance the counter / return the number', wr + ok_return_bbs(ne), 'the epoch store succeeded', lambda: R.call_guard(ne, 'persist::Persist::store_tlv'))
         vs = prims.sources(ne, st[0].d['a'][2], through={'core::num::<impl u64>::wrapping_add', 'core::cmp::Ord::max'})
         R.expect('P10', ne.fn, 'the stored epoch lies one epoch size ahead', any(x[0] == 'constp' and x[1].endswith('EVENT_NUMBER_EPOCH_SIZE') for x in vs), '+ EVENT_NUMBER_EPOCH_SIZE', f'{sorted(map(str, vs))[:5]}')
+        vs2 = prims.sources(ne, st[0].d['a'][2], through={'core::cmp::Ord::max'})
+        callz = {c for c in src_calls(vs2) if c.startswith('core::num::')}
+        R.expect('P10', ne.fn, 'the stored boundary is the current number plus one epoch (a sum, strictly ahead), or the first epoch', 'core::num::<impl u64>::wrapping_add' in callz and
+                 callz <= {'core::num::<impl u64>::wrapping_add', 'core::num::<impl u64>::checked_add', 'core::num::<impl u64>::saturating_add'},
+                 'event_number.wrapping_add(EPOCH).max(1) | EPOCH', f'the value stored is computed with {sorted(callz)}: it is not a sum with the epoch size, so it may not lie ahead of the numbers about to be handed out')
         R.expect('P6', 'im::events::EVENT_NUMBER_EPOCH_SIZE', 'epoch size is positive', F.const_val('im::events::EVENT_NUMBER_EPOCH_SIZE') > 0, 'ok', '0')
         cond = ne.calls('core::num::<impl u64>::is_multiple_of')
         R.expect('P2', ne.fn, 'the store is triggered at every epoch boundary (is_multiple_of(EPOCH)) and at 1', len(cond) == 1 and any(x[0] == 'constp' and x[1].endswith('EVENT_NUMBER_EPOCH_SIZE') for x in prims.sources(ne, cond[0].d['a'][1]))
@@ -179,6 +184,24 @@ def check(R):
         bad = prims.always_followed_by(ac, [e[1] for e in se], stc)
         R.expect('P3', ac.fn, 'every boundary the check-in counter returns is stored', bool(se) and not bad, 'Some(v) -> kv.store', 'a Some(v) path skips the store')
         result_used(R, 'P8', ac, ('persist::KvBlobStore::store',))
+        CC = 'sc::checkin::CheckInCounter'
+        ab = R.body(CC + '::advance_by')
+        dist = named_local(ab, 'dist_to_boundary')
+        cmpz = [c for c in prims.compare_sites(ab) if any(l in dist for l in _flow_locals(ab, c[3]) | _flow_locals(ab, c[4]))]
+        okc = False
+        if len(cmpz) == 1:
+            bb, j, op, a1, a2, d = cmpz[0]
+            l_is_dist = any(l in dist for l in _flow_locals(ab, a1))
+            okc = (op == 'Ge' and not l_is_dist) or (op == 'Le' and l_is_dist)
+        R.expect('P10', ab.fn, 'a jump that reaches the stored boundary (delta >= distance) re-anchors and asks for a store', okc, 'delta >= dist_to_boundary',
+                 f'comparison is {[c[2] for c in cmpz]}: a jump landing exactly on the boundary is not persisted')
+        somes = ok_return_bbs(ab, 'Some', 'core::option::Option')
+        R.floor('Some(boundary) in advance_by', len(somes), 1)
+        ws = [i for i, j, s in ab.field_writes('next_epoch:' + CC)]
+        R.expect('P3', ab.fn, 'the boundary returned for storing is the one kept', bool(ws) and not prims.precedes(ab, ws, somes), 'next_epoch written before Some(next_epoch)', 'Some(..) without moving next_epoch')
+        adv = R.body(CC + '::advance')
+        eqs = [c for c in prims.compare_sites(adv, ops=('Eq',)) if mentions(prims.sources(adv, c[3]) | prims.sources(adv, c[4]), 'next_epoch') and mentions(prims.sources(adv, c[3]) | prims.sources(adv, c[4]), 'value')]
+        R.expect('P10', adv.fn, 'a single step asks for a store exactly when it lands on the boundary', len(eqs) == 1, 'value == next_epoch', f'{len(eqs)} equality tests')
         ic = F.bodies.get('dm::clusters::icd_mgmt::Icd::invalidate_counter')
         R.expect('P5', 'dm::clusters::icd_mgmt::Icd::invalidate_counter', 'invalidate_counter is #[must_use]', ic is not None and ic.rec.get('must_use') is True, 'must_use', 'not must_use')
 
